@@ -163,6 +163,7 @@ const c05Instances = 3 // fresh targets per probe kind
 
 func genC05(rng *rand.Rand, c *Case) {
 	c.Cfg["policy"] = 3
+	c.Cfg["sidecar"] = rng.Intn(2)
 	// requester bitmap
 	var a rp.Access
 	probe := rng.Intn(len(privProbes))
@@ -225,6 +226,18 @@ func c05Populate(w *World) {
 			if strings.Contains(p.Name, "folder") {
 				must(os.MkdirAll(filepath.Join(root, fmt.Sprintf("dir%03d", k)), 0755))
 				must(os.WriteFile(filepath.Join(root, fmt.Sprintf("dir%03d", k), "inner.txt"), []byte("x"), 0644))
+			}
+			if w.Case.Cfg["sidecar"] == 1 && j%2 == 1 {
+				// a stale information sidecar whose type disagrees with the kind of the entry it sits next to (what a
+				// commented folder that was renamed leaves behind for a later file of the same name, and vice versa)
+				fn, dn := fmt.Sprintf("file%03d.txt", k), fmt.Sprintf("dir%03d", k)
+				if _, err := os.Stat(filepath.Join(root, fn)); err == nil {
+					must(os.WriteFile(filepath.Join(root, ".info_"+fn), rp.InfoFork{Platform: "AMAC", Type: "fldr", Creator: "n/a ", Name: []byte(fn), Comment: []byte("stale")}.Encode(), 0644))
+				}
+				if _, err := os.Stat(filepath.Join(root, dn)); err == nil {
+					must(os.WriteFile(filepath.Join(root, ".info_"+dn), rp.InfoFork{Platform: "AMAC", Type: "TEXT", Creator: "ttxt", Name: []byte(dn), Comment: []byte("stale")}.Encode(), 0644))
+				}
+				w.Probe("targets_with_stale_sidecar")
 			}
 			if p.Name == "delete-account" {
 				w.AddAccount(fmt.Sprintf("victim%02d", k), "V", "", rp.Access{})
